@@ -7,7 +7,9 @@ for patch in sorted(glob.glob(os.path.join(here, 'mutants', '*.patch'))):
     tmp = tempfile.mkdtemp(prefix='mb_'); tree = os.path.join(tmp, 'r')
     try:
         subprocess.check_call(['git', '-C', '/repo', 'worktree', 'add', '-q', '--detach', tree, 'HEAD'])
-        subprocess.check_call(['git', '-C', tree, 'apply', patch])
+        if subprocess.call(['git', '-C', tree, 'apply', patch]):
+            out[os.path.basename(patch)] = {'stale': True}
+            continue
         r = subprocess.run([os.path.join(here, 'tools', 'baseline.py'), tree], capture_output=True, text=True)
         out[os.path.basename(patch)] = {'pinned_tests_pass': r.returncode == 0, 'detail': r.stdout.strip().splitlines()[:4]}
         print(os.path.basename(patch), r.returncode == 0, flush=True)
